@@ -13,7 +13,7 @@
 (*   Quiesce: no thread is left in any sleep queue; a Hang (a finite sleeper that never woke) has no action.           *)
 (* KF_F2 (environment KF_F2=1) additionally accepts the recorded defect F2, and only it: a reason left by an interrupt *)
 (* that had completed before the sleep was invoked AND whose target was READY when thread_interrupt() looked at it      *)
-(* (recorded state 0 READY, or 1 RUNNING on another vCPU an instant earlier), is returned by that thread's later sleep.  *)
+(* (recorded state 0 READY, or 1 RUNNING / 8 STANDBY an instant earlier)      , is returned by that thread's later sleep.  *)
 EXTENDS Naturals, Integers, Sequences, FiniteSets, TLC, Json, IOUtils
 Tr == ndJsonDeserialize(IOEnv.TRACE)
 KF_F2 == "KF_F2" \in DOMAIN IOEnv /\ IOEnv.KF_F2 = "1"
@@ -36,9 +36,9 @@ Inv == /\ Ev("Inv") /\ pend[R.t].op = "none"
 Deliverable(i, t, en) ==
   /\ i.target = t /\ i.e = en
   /\ \/ ~i.used /\ (i.rpos = 0 \/ i.rpos > pend[t].pos)
-     \/ KF_F2 /\ i.st \in {0, 1} /\ (i.used \/ (i.rpos # 0 /\ i.rpos < pend[t].pos))  \* F2 (i.used: reported once by a zero-length sleep = yield, which does not clear it, and now again): stale reason of an interrupt to a READY thread (possibly
+     \/ KF_F2 /\ i.st \in {0, 1, 8} /\ (i.used \/ (i.rpos # 0 /\ i.rpos < pend[t].pos))  \* F2 (i.used: reported once by a zero-length sleep = yield, which does not clear it, and now again): stale reason of an interrupt to a READY thread (possibly
                                                                     \* already reported once by the yield it interrupted).  st is read
-                                                                    \* by the harness just before the call: a target seen RUNNING (1) on
+                                                                    \* by the harness just before the call: a target seen RUNNING (1) or STANDBY (8) on
                                                                     \* another vCPU may be READY by the time thread_interrupt() looks
                                                                     \* (a target still RUNNING then is not touched at all)
 Overtakes(a, b) ==     \* sleep a (returning 0 now) passes over pending sleep b
